@@ -54,9 +54,9 @@ RULE = ("cases = seeded (API Generator|RandomState|module, distribution of 13, p
 ASSUMPTIONS = ["numpy.random defines the per-chunk draws", "spawn process pool (1 worker) reused within a shard",
                "unseeded generators draw OS entropy: their witnesses are not replayable value-for-value"]
 BUDGET = {"quick": 90, "thorough": 560}
-FLOORS = {"quick": {"evaluations": 1000, "distinct_nontrivial": 480,
-                    "counters": {"seeded_compared": 500, "seeded_processes": 30, "seeded_threads": 450, "unseeded_pairs": 260,
-                                 "together_vs_alone": 500, "own_draw_checked": 60, "choice_checked": 150, "permutation_checked": 65},
+FLOORS = {"quick": {"evaluations": 900, "distinct_nontrivial": 400,
+                    "counters": {"seeded_compared": 430, "seeded_processes": 25, "seeded_threads": 400, "unseeded_pairs": 220,
+                                 "together_vs_alone": 420, "own_draw_checked": 50, "choice_checked": 120, "permutation_checked": 55},
                     "sets": {"seeded_api_dist": 30, "unseeded_mode_dist": 45}, "max_skipped_fraction": 0.15},
           "thorough": {"evaluations": 10000, "distinct_nontrivial": 4800,
                        "counters": {"seeded_compared": 5000, "seeded_processes": 300, "seeded_threads": 4500, "unseeded_pairs": 2600,
@@ -149,7 +149,7 @@ def _chunks_arg(d):
 
 def cases(tier, seed):
     rng = random.Random(seed * 6151 + 28)
-    n = 2400 if tier == "quick" else 24000
+    n = 2000 if tier == "quick" else 24000
     for i in range(n):
         u = rng.random()
         if u < 0.5:
